@@ -13,6 +13,9 @@ pub enum Plan {
     FdtThreshold { seed: u64 },
     /// keep only the LAST copy of the FDT (after the object's close-object packet) / only the first
     FdtPlacement,
+    /// ObjectsBeingTransferred: the object is announced by an OLDER FDT instance only - its first transfer is lost,
+    /// newer instances that do not list it arrive, every later instance listing it is lost, its next transfer arrives
+    OlderFdt,
     JoinAll,
     /// every join offset within the first `n` consecutive full cycles
     JoinCycles(u32),
@@ -223,6 +226,37 @@ pub fn expand(plan: &Plan, sp: &SessP, st: &[PktInfo]) -> Vec<String> {
             let max_tr = st.iter().filter(|p| p.toi == 0).map(|p| p.tr).max().unwrap_or(0);
             for keep in 1..=max_tr.min(12) {
                 let m: Vec<u8> = st.iter().map(|p| if p.toi == 0 && p.tr != keep { 0 } else { 1 }).collect();
+                out.push(render(&m, false));
+            }
+        }
+        Plan::OlderFdt => {
+            for o in sp.objs.iter().filter(|o| o.m >= 2 && o.toi.is_some()) {
+                let toi = o.toi.unwrap();
+                // the first instance listing the object
+                let first = match sp.fdts.iter().find(|f| f.tois.contains(&toi)) {
+                    Some(f) => f.id,
+                    None => continue,
+                };
+                let lists = |id: u32| sp.fdts.iter().any(|f| f.id == id && f.tois.contains(&toi));
+                let first_pkt = st.iter().position(|p| p.toi == toi);
+                let m: Vec<u8> = st
+                    .iter()
+                    .enumerate()
+                    .map(|(i, p)| {
+                        if p.toi == toi {
+                            (p.tr >= 2) as u8
+                        } else if p.toi == 0 {
+                            // the first listing instance only before the object starts; instances not listing it always
+                            if p.fdt == first {
+                                (first_pkt.map(|f| i < f).unwrap_or(true)) as u8
+                            } else {
+                                (!lists(p.fdt)) as u8
+                            }
+                        } else {
+                            1
+                        }
+                    })
+                    .collect();
                 out.push(render(&m, false));
             }
         }
@@ -558,6 +592,49 @@ pub fn gen_c01(seed: u64, thorough: bool) -> Vec<CaseSpec> {
         }
         push(sp, &mut cases, vec![Plan::Full]);
     }
+    // (5) filesystem writer, successive versions of ONE Content-Location (new TOI each): the file must hold exactly
+    // the version completed last - shorter, longer, equal, empty, three versions; sequential transfers (multiplex 1)
+    for sch in [Scheme::NoCode, Scheme::Rs] {
+        for full in [true, false] {
+            for sizes in [vec![5000u64, 1200], vec![1200, 5000], vec![2000, 2000], vec![37, 0], vec![900, 300, 100], vec![10, 4000, 11]] {
+                let mut sp = SessP::default();
+                sp.oti = OtiP { sch, e: 1024, b: 8, p: if sch == Scheme::NoCode { 0 } else { 1 }, ifti: true };
+                sp.full = full;
+                sp.wr = "fs".into();
+                sp.mux = vec![1];
+                for (j, sz) in sizes.iter().enumerate() {
+                    let mut ob = ObjP::default();
+                    ob.sz = *sz;
+                    ob.seed = 100 + j as u64;
+                    ob.ck = if j % 2 == 0 { 'r' } else { 'p' };
+                    ob.oti = Some(OtiP { sch, e: 64, b: 8, p: if sch == Scheme::NoCode { 0 } else { 1 }, ifti: j % 2 == 0 });
+                    ob.loc = Some(1);
+                    sp.objs.push(ob);
+                }
+                push(sp, &mut cases, vec![Plan::Full]);
+            }
+        }
+    }
+    // (6) stream sources handed over at a non-zero position (the object is the whole stream; nothing but the start
+    // of each transfer rewinds it when no MD5 is computed), one and several transfers, carousel
+    for sch in Scheme::ALL {
+        for (m, md5) in [(1u32, false), (2, false), (3, true), (2, true)] {
+            let mut sp = SessP::default();
+            sp.oti = OtiP { sch, e: if sch == Scheme::Raptor { 64 } else { 1024 }, b: 8, p: if sch == Scheme::NoCode { 0 } else { 1 }, ifti: true };
+            sp.ro = m % 2 == 1;
+            for j in 0..2u64 {
+                let mut ob = ObjP::default();
+                ob.oti = Some(OtiP { sch, e: 16, b: 4, p: if sch == Scheme::NoCode { 0 } else { 1 }, ifti: j == 0 });
+                ob.sz = 16 * 4 * 3 + 5 * j;
+                ob.seed = 7 + j;
+                ob.m = m;
+                ob.md5 = md5;
+                ob.src = if j == 0 { "streamoff".into() } else { "stream".into() };
+                sp.objs.push(ob);
+            }
+            push(sp, &mut cases, vec![Plan::Full]);
+        }
+    }
     // (4) receiver cache limit (F22): window x block bytes around object_max_cache_size
     for w in [1u32, 2, 3, 4] {
         for maxc in [64u64, 96, 128, 160, 256, 1024] {
@@ -730,6 +807,27 @@ pub fn gen_c02(seed: u64, thorough: bool) -> Vec<CaseSpec> {
                     sp.objs.push(ob);
                     push(sp, &mut cases, vec![Plan::Full, Plan::FdtPlacement]);
                 }
+            }
+        }
+    }
+    // (g) ObjectsBeingTransferred: an object announced only by an OLDER, still valid FDT instance (the newest complete
+    // instance lists another object) must still be attached when its packets arrive
+    for sch in [Scheme::NoCode, Scheme::Rs, Scheme::RaptorQ] {
+        for ifti in [true, false] {
+            for nobj in [2usize, 3] {
+                let mut sp = base(Scheme::Rs);
+                sp.full = false;
+                sp.mux = vec![1];
+                sp.ro = ifti;
+                for j in 0..nobj {
+                    let mut ob = ObjP::default();
+                    ob.oti = Some(OtiP { sch, e: 4, b: 3, p: if sch == Scheme::NoCode { 0 } else { 1 }, ifti });
+                    ob.sz = 20 + 3 * j as u64;
+                    ob.seed = j as u64;
+                    ob.m = if j == 0 { 2 } else { 1 };
+                    sp.objs.push(ob);
+                }
+                push(sp, &mut cases, vec![Plan::Full, Plan::OlderFdt]);
             }
         }
     }
